@@ -306,6 +306,8 @@ impl GroupStorage for MdkSqliteStorage {
                 .map_err(into_group_err)?;
 
             let result: Result<(), GroupError> = (|| {
+                #[cfg(feature = "verif-hooks")]
+                crate::verif_hooks::tick("replace_relays:delete");
                 conn.execute(
                     "DELETE FROM group_relays WHERE mls_group_id = ?",
                     params![group_id.as_slice()],
@@ -313,12 +315,16 @@ impl GroupStorage for MdkSqliteStorage {
                 .map_err(into_group_err)?;
 
                 for relay_url in &relays {
+                    #[cfg(feature = "verif-hooks")]
+                    crate::verif_hooks::tick("replace_relays:insert");
                     conn.execute(
                         "INSERT INTO group_relays (mls_group_id, relay_url) VALUES (?, ?)",
                         params![group_id.as_slice(), relay_url.as_str()],
                     )
                     .map_err(into_group_err)?;
                 }
+                #[cfg(feature = "verif-hooks")]
+                crate::verif_hooks::tick("replace_relays:release");
                 Ok(())
             })();
 
